@@ -110,6 +110,25 @@ def run(ctx):
             ctx.check(abs(float(v1[0]) - ex[0]) < 1e-9 and abs(float(v1[1]) - ex[1]) < 1e-9, "rotated vertex", {**desc, "vertex": v0}, ex, tuple(map(float, v1)))
         S.rotate(-ang, degrees=deg)
         ctx.check(S == S0, "inverse rotation does not restore an equal shape", desc)
+    # ---- distinct control points with EQUAL coordinates (two arcs bulging to the same interior point): every one must move
+    from shapepy import SimpleShape
+    cpt = (F(1), F(3))
+    segs = [[(0, 1), cpt, (2, 1)], [(2, 1), (2, 5)], [(2, 5), cpt, (0, 5)], [(0, 5), (0, 1)]]
+    for t in (("move", F(3), F(-2)), ("scale", F(2), F(3)), ("scale", F(-1), F(-1))):
+        S = SimpleShape(JordanCurve.from_ctrlpoints(segs))
+        f = (lambda p: (p[0] + t[1], p[1] + t[2])) if t[0] == "move" else (lambda p: (p[0] * t[1], p[1] * t[2]))
+        (S.move if t[0] == "move" else S.scale)(t[1], t[2])
+        got = [[tuple(p) for p in sg.ctrlpoints] for sg in S.jordans[0].segments]
+        exp = [[f(p) for p in sg] for sg in segs]
+        ctx.case("coincident-control-points", t)
+        ctx.check(got == exp, "control points with equal coordinates were not all transformed", {"ctrl": segs, "transformation": t}, exp, got)
+    # two vertices closer than the 1e-9 point tolerance are still two vertices
+    eps = F(1, 10 ** 9)      # representable (denominator <= 10^9) and within the 1e-9 tolerance of Point2D.__eq__
+    vs = [(0, 0), (4, 0), (4, 3), (4 + eps, 3 + eps), (0, 3)]
+    J = JordanCurve.from_vertices(vs)
+    J.move(5, 7)
+    ctx.case("coincident-control-points", "near-coincident-vertices")
+    ctx.check([tuple(v) for v in J.vertices] == [(x + 5, y + 7) for x, y in vs], "vertices closer than 1e-9 were not all moved", {"vertices": vs})
     # ---- curves with shared junction objects: each vertex moved exactly once (heap model: C09.move_geom)
     for it in range(10 if ctx.quick else 200):
         vs = shapes.rand_simple_vs(rng, 0, 0, R=5)
